@@ -12,7 +12,7 @@ import (
 	"verif/harness/pegi"
 )
 
-const ruleC17 = "the C02 string families (ASCII and non-ASCII), parsed with the function catalogue registered or not; " +
+const ruleC17 = "the C02 string families incl. grammar-derived sentences and deep nestings (ASCII and non-ASCII), parsed with the function catalogue registered or not; " +
 	"oracle = PEGI (an interpreter executing /repo/jsonpath.peg) + the documented restrictions evaluated on PEGI's derivation tree: accepted iff derivable and restriction-free; " +
 	"otherwise the error type of the first violated restriction, or ErrorInvalidSyntax 'unrecognized input' with position = end of the longest accepted prefix (in characters) and near = the rest of the path from that character. " +
 	"Non-trivial: PEGI consumes >=2 characters before failing, or the string is accepted with >=2 steps, or a restriction fires. Distinct = distinct (string, functions registered?)."
@@ -57,6 +57,12 @@ func drawC17(rt *rapid.T) *Case {
 	g := gen.NewG(rt, gen.PathOpts{Funcs: true, RootOmit: true, BigInts: true, FuncPct: 25})
 	paths, _ := suiteCorpus()
 	s, fam := g.MutString(paths)
+	if gs, ok := grammarSentence(rt); ok {
+		s, fam = gs, famGrammar
+		if gen.Uniform(rt, "gmut", 3) == 0 {
+			s = g.MutateText(s)
+		}
+	}
 	return &Case{Path: s, Funcs: gen.Uniform(rt, "funcs", 3) > 0, Strs: []string{fam}}
 }
 
